@@ -158,6 +158,8 @@ func descentKeyOf(k Kind, raw []byte) ([]byte, bool) {
 	case *compoundKind:
 		_, enc := tupleCodec{kk}.Transform(kk.toTuple(raw))
 		return enc, true
+	case *rawCmpKind:
+		return clone(raw), true
 	}
 	return nil, false
 }
